@@ -124,6 +124,17 @@ func StatePredicates(prefix string) {
 			cls[i][3] = t.State == txFAILED
 			cls[i][4] = t.State == txVALIDATED // validated, its commit phase under way
 		}
+		// U: the first transaction is validated and NONE of its proposals is committed yet; UF: ... and the second has
+		// failed while its abort is still under way (both in flight on the shared targets)
+		u := S.Txs[0].State == txVALIDATED
+		for tg := 0; tg < NT; tg++ {
+			p := &S.Props[tg][0]
+			if p.Exists && p.Commit.Present && p.Commit.State == int32(configapi.ProposalCommitPhase_COMMITTED) {
+				u = false
+			}
+		}
+		verifrt.Region(prefix+"reach:w-U-", u && !S.Txs[1].Exists)
+		verifrt.Region(prefix+"reach:w-UF", u && S.Txs[1].State == txFAILED && !txTerminal(1))
 		const letters = "-CAFV"
 		for a := 1; a < 5; a++ {
 			for b := 0; b < 5; b++ {
